@@ -106,10 +106,23 @@ class Prior(HoloPyObject):
         return self * -1
 
     def __pow__(self, value):
-        return TransformedPrior(operator.pow, [self, value])
+        if isinstance(value, (Number, Prior)):
+            return TransformedPrior(operator.pow, [self, value])
+        elif isinstance(value, np.ndarray):
+            return np.array([self ** val for val in value])
+        else:
+            raise TypeError(
+                "Cannot raise prior to a power of type {}".format(type(value)))
 
     def __rpow__(self, value):
-        return TransformedPrior(operator.pow, [value, self])
+        if isinstance(value, Number):
+            return TransformedPrior(operator.pow, [value, self])
+        elif isinstance(value, np.ndarray):
+            return np.array([val ** self for val in value])
+        else:
+            raise TypeError(
+                "Cannot raise objects of type {} to the power of a "
+                "prior".format(type(value)))
 
     def __array_ufunc__(self, ufunc, method, *args, name=None, **kwargs):
         if method == "__call__" and len(kwargs) == 0:
